@@ -72,6 +72,10 @@ struct Cfg {
     /// 1: "mixed wire encodings" - per message (chosen by its index) big or little endian payloads and every integer
     ///    argument in another width / signedness (u8..u64, i8..i64 where the value fits), ASCII or UTF-8 file names
     enc: u8,
+    /// with apid_filter: the plugin is configured with a ctid instead of an apid (the foreign copies then differ in the ctid)
+    by_ctid: bool,
+    /// allowSave / keepFLDA are left out of the configuration where they have their default value (true / false)
+    omit_defaults: bool,
 }
 
 fn base_msg(index: u32, ecu: &str, lc: u32, apid: &str, noar: u8, payload: Vec<u8>) -> DltMessage {
@@ -128,7 +132,18 @@ fn enc_args(sel: u64, args: &[A]) -> (u8, Vec<u8>, bool) {
     (args.len() as u8, p, be)
 }
 
-fn build_msg(index: u32, it: &Item, trs: &[Tr], enc: u8) -> DltMessage {
+fn build_msg(index: u32, it: &Item, trs: &[Tr], enc: u8, by_ctid: bool) -> DltMessage {
+    let mut m = build_msg_inner(index, it, trs, enc);
+    // a copy sent by ANOTHER application: foreign apid, or - when the plugin filters by ctid - the own apid and a foreign ctid
+    if it.noise >= 100 && by_ctid {
+        if let Some(eh) = m.extended_header.as_mut() {
+            eh.apid = char4("APID");
+            eh.ctid = char4("XXXX");
+        }
+    }
+    m
+}
+fn build_msg_inner(index: u32, it: &Item, trs: &[Tr], enc: u8) -> DltMessage {
     if it.t == 0 && it.noise < 100 {
         let t0 = &trs[0];
         return match it.noise % 6 {
@@ -297,7 +312,7 @@ struct Dirs {
 
 fn hdr_json(cfg: &Cfg, trs: &[Tr], wire: &[Item], src: &str, envs: &[Value]) -> Value {
     json!({
-        "cfg": {"allow_save": cfg.allow_save, "auto": cfg.auto, "keep_flda": cfg.keep_flda, "apid_filter": cfg.apid_filter, "glob": cfg.glob, "enc": cfg.enc},
+        "cfg": {"allow_save": cfg.allow_save, "auto": cfg.auto, "keep_flda": cfg.keep_flda, "apid_filter": cfg.apid_filter, "glob": cfg.glob, "enc": cfg.enc, "by_ctid": cfg.by_ctid, "omit_defaults": cfg.omit_defaults},
         "tr": trs.iter().map(|t| json!({"lens": t.lens, "size": t.data.len(), "hash": hash31(&t.data), "pre": t.pre, "name": t.name,
                 "base": base_name(t.name_class, t.idx, t.serial), "base_id": t.base_id,
                 "name_class": t.name_class, "key": {"ecu": t.ecu, "lc": t.lc, "serial": t.serial}})).collect::<Vec<_>>(),
@@ -421,10 +436,18 @@ fn run_case(dirs: &Dirs, case: u64, cfg: &Cfg, trs: &mut Vec<Tr>, wire: &[Item],
         let mut evs = Vec::new();
         let mut c = serde_json::Map::new();
         c.insert("name".into(), json!("FileTransfer"));
-        c.insert("allowSave".into(), json!(cfg.allow_save));
-        c.insert("keepFLDA".into(), json!(cfg.keep_flda));
+        if !(cfg.omit_defaults && cfg.allow_save) {
+            c.insert("allowSave".into(), json!(cfg.allow_save));
+        }
+        if !(cfg.omit_defaults && !cfg.keep_flda) {
+            c.insert("keepFLDA".into(), json!(cfg.keep_flda));
+        }
         if cfg.apid_filter {
-            c.insert("apid".into(), json!("APID"));
+            if cfg.by_ctid {
+                c.insert("ctid".into(), json!("CTID"));
+            } else {
+                c.insert("apid".into(), json!("APID"));
+            }
         }
         if cfg.auto {
             c.insert("autoSavePath".into(), json!(save_dir.to_str().unwrap()));
@@ -443,7 +466,7 @@ fn run_case(dirs: &Dirs, case: u64, cfg: &Cfg, trs: &mut Vec<Tr>, wire: &[Item],
                     }
                 }
             } else {
-                let mut m = build_msg(i as u32, it, trs_ro, cfg.enc);
+                let mut m = build_msg(i as u32, it, trs_ro, cfg.enc, cfg.apid_filter && cfg.by_ctid);
                 fwd = plugin.process_msg(&mut m);
             }
             entries = project(&state.read().unwrap().value, trs_ro);
@@ -614,7 +637,7 @@ fn cfg_for(r: u64, idx: u64) -> Cfg {
         15 => (true, true),
         _ => (true, false),
     };
-    Cfg { allow_save, auto, keep_flda: (idx / 16) % 2 == 0, apid_filter: idx % 3 == 0, glob: if idx % 5 == 0 { "*.bin" } else { "*" }, enc: if idx % 4 == 1 { 1 } else { 0 } }
+    Cfg { allow_save, auto, keep_flda: (idx / 16) % 2 == 0, apid_filter: idx % 3 == 0, glob: if idx % 5 == 0 { "*.bin" } else { "*" }, enc: if idx % 4 == 1 { 1 } else { 0 }, by_ctid: idx % 6 == 3, omit_defaults: idx % 7 == 3 }
 }
 
 fn main() {
